@@ -109,7 +109,7 @@ def srvObs (ws : List String) : String :=
     | some "max" => some 18446744073709551615
     | some t => if !t.isEmpty && t.length ≤ 20 && t.all Char.isDigit then
         t.toNat?.bind fun n => if n ≤ 18446744073709551615 then some n else none else none
-  let lstOk := (match kv ws "lst" with | none => true | some l => l == "tcp" || l == "uds" || l == "udsl") &&
+  let lstOk := (match kv ws "lst" with | none => true | some l => l == "tcp" || l == "uds" || l == "udsl" || l == "udsa") &&
     (match kv ws "sysexit" with | none => true | some v => v == "1")
   match tmo, lstOk with
   | none, _ | _, false => "bad-op"
@@ -160,7 +160,9 @@ def srvObs (ws : List String) : String :=
 Pending (until the gate is opened) or Err (once); the calls, as (instance, readiness at the call) -/
 def gateObs (ws : List String) : String :=
   if kv ws "skip" == some "ports" then "skipped" else
-  let kind : Option Bool := match kv ws "kind" with | some "pending" => some false | some "fail" => some true | _ => none
+  -- `kind=fail2`: the re-created instance answers its very first readiness check with Err as well: re-created again, never called
+  let fail2 := kv ws "kind" == some "fail2"
+  let kind : Option Bool := match kv ws "kind" with | some "pending" => some false | some "fail" => some true | some "fail2" => some true | _ => none
   match kind with
   | none => "bad-op"
   | some fail =>
@@ -179,11 +181,13 @@ def gateObs (ws : List String) : String :=
       s!"calls={",".intercalate calls} answers=1- stop={if run.returned then "resolved" else "never"} released={bit (s1.finished && s1.queue.isEmpty)} called-after={calls.length - 1}"
     | some none =>
     let script : List Rd := [.ready, .ready, .ready, if fail then .err else .pending]
-    let s0 := ActixNet.Worker.init { n := 1, timeout := 0, svcs := fun _ => { script := script } }
+    let future : List ActixNet.Worker.Inc := if fail2 then [{ script := [.err] }, {}] else []
+    let s0 := ActixNet.Worker.init { n := 1, timeout := 0, svcs := fun _ => { script := script, future := future } }
     let s1 := ActixNet.Worker.run s0 [.conn 0, .poll 1000, .conn 0, .poll 1000, .poll 1000]
     let calls := s1.log.filterMap fun e => match e with | .call _ inc _ => some s!"{inc + 1}R" | _ => none
     let answers := String.join (s1.log.filterMap fun e => match e with | .call _ inc _ => some (toString (inc + 1)) | _ => none)
-    s!"calls={",".intercalate calls} answers={answers}"
+    let failed := s1.log.filterMap fun e => match e with | .pollReady _ inc .err => some (toString (inc + 1)) | _ => none
+    s!"calls={",".intercalate calls} answers={answers}" ++ (if fail2 then s!" failed={",".intercalate failed}" else "")
 
 /-- `fault` scenario (a worker dies, its service is slow to tear down): what C08/C01 demand — the killing
 connection gets no answer, every later one is answered by a live worker, the replacement rejoins -/
@@ -264,7 +268,8 @@ def faultObs (ws : List String) : String :=
 def sigObs (ws : List String) : String :=
   if kv ws "skip" == some "ports" then "skipped" else
   let sig : Option Src.Signal := match kv ws "sig" with | some "int" => some .Int | some "term" => some .Term | some "quit" => some .Quit | _ => none
-  let rtOk := match kv ws "rt" with | none => true | some r => r == "system" || r == "tokio"
+  let rtOk := (match kv ws "rt" with | none => true | some r => r == "system" || r == "tokio") &&
+    (match kv ws "lst" with | none => true | some l => l == "tcp" || l == "udsa")
   if !rtOk then "bad-op" else
   match sig, (kv ws "hold").bind parseHolds with
   | some sig, some [_] =>
